@@ -138,6 +138,9 @@ def configs(tier, seed):
         out.append(_mk(cls, 4, 2, 1, 1, "all", "full", K, gran=1))                          # granularity, one write port
         out.append(_mk(cls, 4, 2, 1, 2, "all", "zero", K, gran=1))                          # granularity, two write ports
         out.append(_mk(cls, 4, 2, 1, 2, "none", "zero", K, gran=1))
+    for cls in multi:
+        # a write-port count that is not a power of two (bank-index width corner)
+        out.append(_mk(cls, 4, 2, 1, 3, "none", "full", 5 if tier == "quick" else 7))
     if tier == "quick":
         return out
     for cls in multi:
